@@ -866,6 +866,9 @@ func derefStruct(t types.Type) *types.Struct {
 // struct value), returns the field and the base value.
 func fieldLoad(v ssa.Value) (*types.Var, ssa.Value, bool) {
 	switch x := v.(type) {
+	case *ssa.ChangeType:
+		// a conversion between types with the same underlying type (TargetList <-> []*Target) is still the field's value
+		return fieldLoad(x.X)
 	case *ssa.UnOp:
 		if x.Op == token.MUL {
 			return fieldOfAddr(x.X)
